@@ -377,6 +377,9 @@ def process(item):
             return v
         svi = structural(ilines, iv)
         svm = structural(mlines, mv) if d else svi
+        # a `retsub` block in the main function (reachable `retsub` outside every subroutine), wherever it stands in the text
+        if any(l.startswith('fblock ') and ' sub=__main__' in l and ' exit=retsub' in l for l in list(ilines) + list(mlines)):
+            res['shapes'] = sorted(set(res['shapes']) | {'retsubInMain'})
         if any(l.startswith('block ') and ' live=0 ' in l and not l.split(' next=')[1].startswith(' ') for l in ilines):
             res['shapes'] = sorted(set(res['shapes']) | {'deadTwoSucc'})
         res['viol_impl'] = [{'prop': p_, 'field': f_, 'where': w_, 'env': j_, 'detail': det_, 'in_other': (p_, f_, w_, j_) in svm}
@@ -487,12 +490,14 @@ def process_c12(item):
             res['shapes'] = sorted(S.shapes_of(toks))
             O.UNKNOWN_FEE_OPERAND = 'feeUnknownOperand' in res['shapes']
             per_path = {}
+            built = []           # (path, function object, what was rendered right after it was built)
             for order in (paths, list(reversed(paths))):
                 for pth in order:
                     try:
                         fn = impl.construct_function_traced(teal, list(pth))
                         keys = impl.block_keys(fn)
                         lines = impl.render_function(fn, keys) + impl.render_contexts(fn, keys)
+                        built.append((pth, fn, keys, lines))
                     except impl.AnalysisFailed as af:
                         keys = impl.block_keys(af.fn)
                         lines = impl.render_function(af.fn, keys) + ['err analyse ' + impl.exc_name(af.exc)]
@@ -501,7 +506,20 @@ def process_c12(item):
                         lines = ['err func ' + impl.exc_name(e)]
                     per_path.setdefault(pth, []).append(lines)
             after = impl.render_teal(teal, cap)
+            # "independent of which other functions were built": what a function object answers AFTER all the others were built
+            # (graph and contexts) is what it answered right after its own construction
+            later = []
+            for pth, fn, keys, lines in built:
+                try:
+                    again = impl.render_function(fn, keys) + impl.render_contexts(fn, keys)
+                except BaseException as e:
+                    if isinstance(e, impl.Timeout): raise
+                    again = ['err rerender ' + impl.exc_name(e)]
+                if again != lines:
+                    later.append((pth, corr.diff(lines, again)))
         viol = {}
+        for pth, d in later[:3]:
+            viol[('C12', 'altered-by-later-functions', '.'.join(pth), 0)] = f"the function for path {pth} answers differently after the other functions of the contract were built: {json.dumps({k: [v[0][:1], v[1][:1]] for k, v in d.items()})[:400]}"
         if before != after:
             d = corr.diff(before, after)
             viol[('C12', 'graph-altered', 'teal', 0)] = f"building functions changed the contract's own graph: {json.dumps({k: [v[0][:2], v[1][:2]] for k, v in d.items()})[:400]}"
@@ -554,7 +572,7 @@ def process_c12(item):
                         res.setdefault('model_has', {})[str(('C12', k[0] + ':' + k[1], ','.join(pth) + ':' + k[2], k[3]))] = k in vm
             # path [B0]: isomorphic to the main graph
         mh = res.get('model_has', {})
-        res['viol_impl'] = [{'prop': p_, 'field': f_, 'where': w_, 'env': j_, 'detail': det_, 'in_other': mh.get(str((p_, f_, w_, j_)), False) if f_ not in ('graph-altered', 'order-dependent') else False}
+        res['viol_impl'] = [{'prop': p_, 'field': f_, 'where': w_, 'env': j_, 'detail': det_, 'in_other': mh.get(str((p_, f_, w_, j_)), False) if f_ not in ('graph-altered', 'order-dependent', 'altered-by-later-functions') else False}
                             for (p_, f_, w_, j_), det_ in viol.items()]
     except impl.Timeout:
         res['status'] = 'impl-timeout'
